@@ -178,7 +178,7 @@ def via_asgi(ctx, chunks, form):
     if sum(map(len, chunks)) % 2:
         hdrs.append(("Content-Length", str(sum(map(len, chunks)))))
     req = drivers.Req(method=("POST", "PUT", "PATCH", "DELETE", "OPTIONS", "POST")[len(chunks) % 6], headers=hdrs)
-    msgs = drivers.body_messages(chunks)
+    msgs = drivers.body_messages(chunks, minimal=len(chunks) % 3 == 2)  # (a third of the bodies arrive in the shortest legal spelling: keys at their default left out)
     box = {}
 
     async def app(scope, receive, send):
